@@ -85,7 +85,7 @@ fn key_of(cell: &str, c: &Value) -> String {
 pub struct Cx<'a> {
     pub sum: &'a mut Summary,
     pub shards: &'a mut CoqShards,
-    pub coq_used: std::collections::HashMap<u32, usize>,
+    pub coq_used: std::collections::HashMap<String, usize>,
     pub coq_limit: usize,
 }
 
@@ -262,9 +262,11 @@ fn rans_coq(cx: &mut Cx, n: u64, data: &[u8], freq: &[u32; 256], table: &[u32], 
 }
 
 pub fn coq_push(cx: &mut Cx, op: u32, a: &[u128], b: &[u128], expect: &[u128], cj: &Value) {
-    let used = cx.coq_used.entry(op).or_insert(0);
-    let limit = match op { 100 => cx.coq_limit / 20, 110 => cx.coq_limit / 40, 111 | 112 => cx.coq_limit / 7, _ => cx.coq_limit / 7 };
-    if *used >= limit { return; }
+    // one budget per kind of case (and per FSE configuration), so that no family crowds out the others
+    let key = format!("{}:{}", op, cj["preset"].as_str().unwrap_or(""));
+    let limit = match op { 100 => cx.coq_limit / 20, 110 => cx.coq_limit / 380, 111 | 112 => cx.coq_limit / 63, _ => cx.coq_limit / 7 };
+    let used = cx.coq_used.entry(key).or_insert(0);
+    if *used >= limit.max(1) { return; }
     *used += 1;
     let term = format!("({}, {}, {}, {})", op, coq_n_list(a.iter().cloned()), coq_n_list(b.iter().cloned()), coq_n_list(expect.iter().cloned()));
     let mut c = json!({"cell": cj["cell"], "tag": cj["tag"], "coq_op": op});
